@@ -193,6 +193,39 @@ func raceEpochs(args []string) int {
 			rep.Evaluations++
 		}
 	}
+	// (c) the goroutines read what other goroutines' species own: interspecies mating at a high rate (the second parent comes
+	// from ANOTHER species, whose goroutine may be mating, cloning and mutating at the same moment), several parents per
+	// species (so that one organism can be drawn as both parents), all trait / weight mutators at high rates
+	for run := 0; run < *runs; run++ {
+		rand.Seed(*seed*9000 + int64(run))
+		opts := presetOpts(run, []int{40, 64, 90}[run%3])
+		opts.EpochExecutorType = neat.EpochExecutorTypeParallel
+		opts.CompatThreshold = []float64{0.3, 0.5, 0.2}[run%3]
+		opts.InterspeciesMateRate = []float64{0.3, 0.6, 0.15}[run%3]
+		opts.SurvivalThresh = []float64{0.5, 0.8, 0.3}[run%3]
+		opts.MutateOnlyProb, opts.MateOnlyProb = 0.15, 0.3
+		opts.MutateRandomTraitProb, opts.MutateLinkTraitProb, opts.MutateNodeTraitProb = 0.6, 0.6, 0.6
+		opts.MutateLinkWeightsProb, opts.MutateToggleEnableProb, opts.MutateGeneReenableProb = 0.9, 0.2, 0.2
+		opts.MutateAddNodeProb, opts.MutateAddLinkProb = 0.2, 0.3
+		pop, err := genetics.NewPopulation(richStart(), opts)
+		if err != nil {
+			fmt.Fprintln(os.Stderr, err)
+			return 2
+		}
+		ex := &genetics.ParallelPopulationEpochExecutor{}
+		ctx := neat.NewContext(context.Background(), opts)
+		frng := rand.New(rand.NewSource(*seed + 77 + int64(run)))
+		for gen := 1; gen <= 2**epochs; gen++ {
+			assignFitness(pop, []int{6, 3, 7}[run%3], frng, gen)
+			if len(pop.Species) > 1 {
+				multi++
+			}
+			if err := ex.NextEpoch(ctx, gen, pop); err != nil {
+				break
+			}
+			rep.Evaluations++
+		}
+	}
 	if rep.Extra == nil {
 		rep.Extra = map[string]interface{}{}
 	}
